@@ -280,3 +280,48 @@ Proof. vm_compute. repeat split. Qed.
 Print Assumptions reachable_inv.
 Print Assumptions solve_obs_fresh.
 Print Assumptions reachable_solve_fresh.
+
+(* ---- rejected calls ----------------------------------------------------------------
+   A call that raises before it touches the problem (minimize / maximize of something that
+   is not an expression, subject_to of a list with an invalid element) is invisible: the
+   history with the call removed ends in the same problem state and store, and every other
+   operation observes the same thing. *)
+Section Rejected.
+  Variables bm hm : list string.
+
+  Lemma rejected_step : forall st s, step bm hm st s ORejected = (s, ONone) /\ store_step st ORejected = st.
+  Proof. intros; split; reflexivity. Qed.
+
+  Lemma run_ops_app : forall ops1 ops2 s st,
+    run_ops bm hm s st (ops1 ++ ops2)%list =
+    let '(s1, st1, o1) := run_ops bm hm s st ops1 in
+    let '(s2, st2, o2) := run_ops bm hm s1 st1 ops2 in
+    (s2, st2, (o1 ++ o2)%list).
+  Proof.
+    induction ops1 as [|o r IH]; intros ops2 s st; cbn [app run_ops].
+    - destruct (run_ops bm hm s st ops2) as [[s2 st2] o2]. reflexivity.
+    - destruct (step bm hm st s o) as [s1 ob]. rewrite IH.
+      destruct (run_ops bm hm s1 (store_step st o) r) as [[s1' st1'] o1'].
+      destruct (run_ops bm hm s1' st1' ops2) as [[s2 st2] o2]. reflexivity.
+  Qed.
+
+  Theorem rejected_transparent : forall ops1 ops2 s st,
+    let '(sa, sta, oa) := run_ops bm hm s st (ops1 ++ ORejected :: ops2)%list in
+    let '(sb, stb, ob) := run_ops bm hm s st (ops1 ++ ops2)%list in
+    sa = sb /\ sta = stb /\
+    oa = (firstn (List.length ops1) ob ++ ONone :: skipn (List.length ops1) ob)%list.
+  Proof.
+    intros ops1 ops2 s st. rewrite !run_ops_app.
+    destruct (run_ops bm hm s st ops1) as [[s1 st1] o1] eqn:E1.
+    cbn [run_ops]. destruct (rejected_step st1 s1) as [-> ->].
+    destruct (run_ops bm hm s1 st1 ops2) as [[s2 st2] o2].
+    assert (Hlen : List.length o1 = List.length ops1).
+    { clear -E1. revert s st s1 st1 o1 E1. induction ops1 as [|o r IH]; intros s st s1 st1 o1 E1; cbn [run_ops] in E1.
+      - inversion E1. reflexivity.
+      - destruct (step bm hm st s o) as [s' ob]. destruct (run_ops bm hm s' (store_step st o) r) as [[s'' st''] o''] eqn:E2.
+        inversion E1; subst. cbn [List.length]. f_equal. eapply IH; exact E2. }
+    repeat split.
+    rewrite <- Hlen, firstn_app, skipn_app, Nat.sub_diag, firstn_all, skipn_all, firstn_O, skipn_O, !app_nil_r.
+    reflexivity.
+  Qed.
+End Rejected.
